@@ -1065,7 +1065,7 @@ impl DecodedPixelData<'_> {
                                 _,
                                 Some(voi_lut_sequence),
                             ) => Lut::new_rescale_and_lut(
-                                8,
+                                self.bits_stored,
                                 signed,
                                 rescale,
                                 VoiLutTransform::new(
@@ -1080,7 +1080,7 @@ impl DecodedPixelData<'_> {
                             .context(CreateLutSnafu)?,
                             (VoiLutOption::Default | VoiLutOption::First, Some(window), _) => {
                                 Lut::new_rescale_and_window(
-                                    8,
+                                    self.bits_stored,
                                     signed,
                                     rescale,
                                     WindowLevelTransform::new(
@@ -1108,7 +1108,7 @@ impl DecodedPixelData<'_> {
                                     "Could find neither VOI LUT nor window level for object"
                                 );
                                 Lut::new_rescale_and_normalize(
-                                    8,
+                                    self.bits_stored,
                                     signed,
                                     rescale,
                                     data.iter().copied(),
@@ -1116,7 +1116,7 @@ impl DecodedPixelData<'_> {
                                 .context(CreateLutSnafu)?
                             }
                             (VoiLutOption::Custom(window), _, _) => Lut::new_rescale_and_window(
-                                8,
+                                self.bits_stored,
                                 signed,
                                 rescale,
                                 WindowLevelTransform::new(
@@ -1136,7 +1136,7 @@ impl DecodedPixelData<'_> {
                             .context(CreateLutSnafu)?,
                             (VoiLutOption::CustomWithFunction(window, function), _, _) => {
                                 Lut::new_rescale_and_window(
-                                    8,
+                                    self.bits_stored,
                                     signed,
                                     rescale,
                                     WindowLevelTransform::new(*function, *window),
@@ -1144,7 +1144,7 @@ impl DecodedPixelData<'_> {
                                 .context(CreateLutSnafu)?
                             }
                             (VoiLutOption::Normalize, _, _) => Lut::new_rescale_and_normalize(
-                                8,
+                                self.bits_stored,
                                 signed,
                                 rescale,
                                 data.iter().copied(),
@@ -1534,10 +1534,10 @@ impl DecodedPixelData<'_> {
 
                         let lut: Lut<T> = match (voi_lut, self.window()?) {
                             (VoiLutOption::Default | VoiLutOption::Identity, _) => {
-                                Lut::new_rescale(8, signed, rescale)
+                                Lut::new_rescale(self.bits_stored, signed, rescale)
                             }
                             (VoiLutOption::First, Some(window)) => Lut::new_rescale_and_window(
-                                8,
+                                self.bits_stored,
                                 signed,
                                 rescale,
                                 WindowLevelTransform::new(
@@ -1560,10 +1560,10 @@ impl DecodedPixelData<'_> {
                             ),
                             (VoiLutOption::First, None) => {
                                 tracing::warn!("Could not find window level for object");
-                                Lut::new_rescale(8, signed, rescale)
+                                Lut::new_rescale(self.bits_stored, signed, rescale)
                             }
                             (VoiLutOption::Custom(window), _) => Lut::new_rescale_and_window(
-                                8,
+                                self.bits_stored,
                                 signed,
                                 rescale,
                                 WindowLevelTransform::new(
@@ -1582,14 +1582,14 @@ impl DecodedPixelData<'_> {
                             ),
                             (VoiLutOption::CustomWithFunction(window, function), _) => {
                                 Lut::new_rescale_and_window(
-                                    8,
+                                    self.bits_stored,
                                     signed,
                                     rescale,
                                     WindowLevelTransform::new(*function, *window),
                                 )
                             }
                             (VoiLutOption::Normalize, _) => Lut::new_rescale_and_normalize(
-                                8,
+                                self.bits_stored,
                                 signed,
                                 rescale,
                                 data.iter().copied(),
